@@ -29,7 +29,8 @@ StreamGuards(e) ==
      <<"G_C20_Order", \A i, j \in DOMAIN fast : i < j => fast[i] < fast[j]>>,
      \* floodMs = -1: 24000 publications (36 MB) did not all return within 20 s while a subscriber was not reading
      <<"G_C20_NeverBlocks", e.maxIssueMsWithStalledSubscriber < 1500 /\ e.floodMs >= 0>>,
-     <<"G_C20_LoginsReported", e.loginsMissing = 0>>,
+     \* every login is reported, under the name the session was issued for (password, VIP, service-provider and federated logins)
+     <<"G_C20_LoginsReported", e.loginsMissing = 0 /\ e.loginsWrongUser = 0 /\ e.federatedLoginReported>>,
      \* no later than the response: when the handler has returned the event is in every subscriber's channel
      <<"G_C20_ArrivesWithResponse", e.lateEvents = 0 /\ e.unpublishedAtResponse = 0 /\ e.publishedAtResponseChecked > 0>>}
 TInit == Init /\ l = 1 /\ viol = {}
